@@ -1,7 +1,7 @@
 (* Driver for the extracted DenseMatrix model (property C19).
    Reads observation lines produced by `lmh-dense run` on stdin:
      <id> T=<ty> size=<bytes> C=<cols> align=<a> pat=<bits> ops=<op;op;...>
-          => <per-op obs>;...;END&<fin0>&<fin1>&<fin2>
+          => <per-op obs>;...;END&<fin0>&<fin1>&<fin2>[;STEPS&<st0>&<st1>&<st2>]
    (format documented in harness/src/bin/dense.rs) and prints one verdict line per case:
      <id> OK | <id> PROPFAIL <why> | <id> DIFF <why>
    PROPFAIL is decided by the extracted checker [check_C19] (proved sound and complete
@@ -160,6 +160,43 @@ let why_fobs cn pat (t : z list list) (f : z fobs) =
   else if f.f_eqmod <> (t = [] || int_of_nat cn = 0) then "eq-ignores-logical-cell"
   else "final-observation"
 
+(* ---- positional iterator calls (DenseSteps.v): next / next_back / nth / nth_back ---- *)
+let parse_steps s : istep list =
+  List.map (fun t ->
+      let arg () = nat_of_int (int_of_string (String.sub t 1 (String.length t - 1))) in
+      match t.[0] with
+      | 'n' -> SNext | 'b' -> SBack | 'N' -> SNth (arg ()) | 'M' -> SNthBack (arg ())
+      | _ -> failwith ("bad step " ^ t))
+    (List.filter (fun t -> t <> "") (String.split_on_char '.' s))
+
+let somes l = List.filter_map (fun x -> x) l
+let rec repeat x n = if n <= 0 then [] else x :: repeat x (n - 1)
+
+(* why a STEPS observation of one register differs from the model, "" when it agrees.
+   Every expectation is the extracted [take_steps] / [steps_lens] (C19_iteration_steps: the rows the
+   shrinking index window designates; C19_iteration_skip_adaptors for skip / rev().skip). *)
+let why_steps (steps : istep list) (t : z list list) (o : string) : string =
+  match String.split_on_char '|' o with
+  | [w1; w2; w3; lens; k; sk; rsk; sb; rsb; msk; last; count] ->
+      let n = List.length t in
+      let exp = z_take_steps steps t in
+      let k = int_of_string k in
+      let kn = nat_of_int k in
+      let walk p = somes (z_take_steps p t) in
+      if parse_opt_rows w1 <> exp then "iter-steps"
+      else if parse_opt_rows w2 <> exp then "iter_mut-steps"
+      else if parse_opt_rows w3 <> exp then "into_iter-steps"
+      else if List.map int_of_string (split ',' lens) <> List.map int_of_nat (steps_lens steps (nat_of_int n)) then "len-after-steps"
+      else if parse_rows sk <> walk (SNth kn :: repeat SNext n) then "skip"
+      else if parse_rows rsk <> walk (SNthBack kn :: repeat SBack n) then "rev-skip"
+      else if parse_rows sb <> walk (SNext :: repeat (SNth kn) n) then "step_by"
+      else if parse_rows rsb <> walk (SBack :: repeat (SNthBack kn) n) then "rev-step_by"
+      else if parse_rows msk <> walk (SNthBack kn :: repeat SBack n) then "iter_mut-rev-skip"
+      else if parse_opt_rows last <> z_take_steps [SBack] t then "last"
+      else if int_of_string count <> n then "count"
+      else ""
+  | _ -> "steps-observation-format"
+
 let () =
   try
     while true do
@@ -186,6 +223,8 @@ let () =
           let cn = nat_of_int c in
           let s = stride (nat_of_int size) cn (nat_of_int align) in
           let items = split ';' obs in
+          let steps_items = List.filter (starts_with "STEPS") items in
+          let items = List.filter (fun x -> not (starts_with "STEPS" x)) items in
           (* observer panics are violations by themselves (an observer of a matrix the
              operation returned normally must not panic) *)
           List.iteri (fun i it -> if it = "OBSPANIC" then
@@ -274,7 +313,29 @@ let () =
                      | _ -> set_v (Printf.sprintf "DIFF op%d struct-model-does-not-panic" idx))
                 | _, _ -> set_v "DIFF observation-count" in
               walk sregs0 ops parsed O 0
-            end
+            end;
+            (* ---- positional iteration over the final matrices (input field steps=) ---- *)
+            (match (try Some (get "steps") with Not_found -> None), steps_items, fin with
+             | None, _, _ | _, _, None -> ()
+             | Some _, [], Some _ -> set_v "DIFF missing-steps-observation"
+             | Some _, ["STEPSPANIC"], Some _ -> set_v "PROPFAIL final iterator-steps panicked"
+             | Some st, [it], Some _ ->
+                 let steps = parse_steps st in
+                 let regs_final =
+                   List.fold_left (fun regs o -> match regs with
+                       | None -> None
+                       | Some r -> (match z_rt_step cn r o with Ok r' -> Some r' | _ -> None))
+                     (Some (List.init nreg (fun _ -> []))) ops in
+                 (match regs_final with
+                  | None -> ()
+                  | Some regs ->
+                      let obs = String.split_on_char '&' (String.sub it 6 (String.length it - 6)) in
+                      if List.length obs <> List.length regs then set_v "DIFF steps-register-count"
+                      else List.iteri (fun k (t, o) ->
+                          let w = why_steps steps t o in
+                          if w <> "" then set_v (Printf.sprintf "PROPFAIL final r%d iterator-positional-calls %s" k w))
+                          (List.combine regs obs))
+             | Some _, _, Some _ -> set_v "DIFF several-steps-observations")
           end
         with
         | Bad m -> set_v ("DIFF " ^ m)
